@@ -37,6 +37,10 @@ def run(ctx, crate):
     # "skipped draws lose nothing": a member's rendering is refreshed before the MultiProgress limiter decides
     from .c02 import rule_multi_arm_unconditional
     rule_multi_arm_unconditional(ctx, crate)
+    # pending printed text forces the draw (an enumerated escalation): so only println may produce Text/Empty rows. A renderer that
+    # emits an Empty row for a blank line of a message makes every ordinary request of that MultiProgress member a forced one (seed C05m)
+    from .. import draw_rules as D_
+    D_.rule_line_kinds(ctx, crate)
 
 
 def rule_update_before_gate(ctx, crate, rule="R-UPDATE-BEFORE-GATE"):
